@@ -56,6 +56,11 @@ func init() {
 	reg("R-COMPOSITE", "A byte key built from bucket and key must be injective: plain concatenation with no length prefix or separator is flagged.", ruleComposite)
 	reg("R-FLAGUSE", "Every use of Options.SyncEnable is an If condition whose exclusively controlled region only syncs (or is passed to a parameter with that property); every comparison of an RWMode value either selects the RWManager implementation or guards a sync-only region.", ruleFlagUse)
 	reg("R-RWPARITY", "Both RWManager constructors open the file with the same os.OpenFile arguments and size it with the same Truncate call; the interface has four methods.", ruleRWParity)
+	reg("R-SENT", "Value-flow of the skiplist sentinel in ds/zset: values that may be SortedSet.header (the field load, phis of it, elements of arrays that received it, parameters and results that carry it; not loads of forward/backward) never have their payload fields read, are never appended to a result, stored into a link field or the dictionary, or returned from an exported method, unless dominated by a != header test.", ruleSentinel)
+	reg("R-SEGPRED", "Each predicate that decides whether an on-disk segment is searched (range, point, prefix), evaluated from its SSA decision region over every ordering of query and segment bounds in a 7-string universe, selects every segment that can hold a matching key.", ruleSegPred)
+	reg("R-NEWEST", "Sparse-mode merges are newest-wins: SortFID comparators order by descending fID and the sorted slice is the one searched; the merge map keeps the first occurrence of a key; memory results are appended before disk results.", ruleNewestWins)
+	reg("R-COMMITTED-READ", "Every non-nil entry Get can return is dominated by a committed-transaction test (DB.committedTxIds, ActiveCommittedTxIdsIdx.Find or FindTxIDOnDisk) or produced by a function with that property; the sparse-mode scans consult the committed-transaction index.", ruleCommittedRead)
+	reg("R-COUNT", "Every counter that is compared with an offset/limit parameter in the cone of PrefixScan/PrefixSearchScan is incremented only at points dominated by the tombstone and expiry tests; limits applied to len() use a list of live entries.", ruleCount)
 	reg("R-RO-IO","The file-system half of R-RO: no exported read API of Tx reaches a file-creating or modifying primitive other than opening an existing segment through NewDataFile(getDataPath(id)).", ruleROIO)
 }
 
